@@ -3,6 +3,7 @@
 # recorded as catching it, against a scratch worktree with the change applied.  Prints CAUGHT / MISSED per change.
 PAT=${1:-*}
 W=${SEED_WT:-/var/tmp/wt-seedtest}
+export VERIF_EVIDENCE_DIR=/var/tmp/seed-evidence; mkdir -p $VERIF_EVIDENCE_DIR
 [ -d $W ] || git -C /repo worktree add --detach $W main -q
 cd /verif
 for d in seeded/$PAT; do
